@@ -4,14 +4,14 @@ import os
 
 ID = "C20"
 LEVEL = "proof"
-# harness.cpp is compiled as 7 translation units in parallel (at most 4 at a time) by props/C20/pcxx.py
+# harness.cpp is compiled as 8 translation units in parallel (at most 4 at a time) by props/C20/pcxx.py
 _PCXX = os.path.join(os.path.dirname(os.path.abspath(__file__)), "pcxx.py")
 HARNESSES = [{"name": "main", "src": "harness.cpp", "compiler": _PCXX,
-              "flags": ["-O1", "-DTETL_ENABLE_CONTRACT_CHECKS=1", "-DC20_NPARTS=7"]},
+              "flags": ["-O1", "-DTETL_ENABLE_CONTRACT_CHECKS=1", "-DC20_NPARTS=8"]},
              # thorough tier: the same cases through an AddressSanitizer + UndefinedBehaviorSanitizer build (a report aborts
              # the case: `crash`); catches use of a destroyed target / dangling reference that the legs cannot print
              {"name": "san", "src": "harness.cpp", "compiler": _PCXX, "thorough_only": True,
-              "flags": ["-O1", "-DTETL_ENABLE_CONTRACT_CHECKS=1", "-DC20_NPARTS=7",
+              "flags": ["-O1", "-DTETL_ENABLE_CONTRACT_CHECKS=1", "-DC20_NPARTS=8",
                         "-fsanitize=address,undefined", "-fno-sanitize-recover=all"]}]
 
 RULE = ("the complete value-category tables (get / pair get / forward / forward_like / invoke on function objects, "
@@ -547,6 +547,31 @@ def gen_init(tier, rng):
     return out
 
 
+def gen_expl(tier, rng):
+    """the conditionally explicit constructors of pair / tuple (c20_expl.inc): every site x every combination of the 8 element
+    codes (implicit / explicit-only / absent conversions, value-category dependent or not) for pairs and for tuples of arity
+    0..3 (third element: 5 codes), plus the element table itself against the compiler; the whole domain, both tiers"""
+    out = ["explelem %d" % c for c in range(8)] + ["explelem 8", "explelem -1"]
+    third = [0, 1, 2, 3, 7]
+    for site in range(12):
+        if site < 8:
+            for a in range(8):
+                for b in range(8):
+                    out.append(f"expl {site} 2 {a} {b}")
+            out.append(f"expl {site} 1 0")       # a pair site with another arity: skipped by every leg
+            out.append(f"expl {site} 3 0 0 0")
+        else:
+            out.append(f"expl {site} 0")
+            for a in range(8):
+                out.append(f"expl {site} 1 {a}")
+                for b in range(8):
+                    out.append(f"expl {site} 2 {a} {b}")
+                    for c in third:
+                        out.append(f"expl {site} 3 {a} {b} {c}")
+    out += ["expl 12 2 0 0", "expl 4 2 0 8", "expl 10 3 0 0 4"]  # unknown site / element code / third-position code
+    return out
+
+
 def gen(tier, rng):
     if tier == "search":
         tier = "thorough"
@@ -558,6 +583,7 @@ def gen(tier, rng):
     out += gen_ipf_mixed(tier, rng)
     out += gen_amp(tier, rng)
     out += gen_init(tier, rng)
+    out += gen_expl(tier, rng)
     return out
 
 
